@@ -27,6 +27,7 @@ type HarnessSpec struct {
 	HangIsFinding bool             `json:"hang_is_finding,omitempty"`
 	MaxSteps      int64            `json:"max_steps,omitempty"`
 	MaxDecisions  int              `json:"max_decisions,omitempty"`
+	MaxThreads    int              `json:"max_threads,omitempty"`
 	ReplayFunc    string           `json:"replay_func,omitempty"` // native function to run for replay (default: Func)
 	ReplayPackage string           `json:"replay_package,omitempty"`
 	NoReplay      string           `json:"no_replay,omitempty"`   // reason why a counterexample cannot be replayed natively
@@ -85,6 +86,7 @@ type harnessResult struct {
 	Approx      map[string]int      `json:"approximations,omitempty"`
 	Verdict     string              `json:"verdict"`
 	Twin        string              `json:"twin,omitempty"`
+	Cross       string              `json:"solver_crosscheck,omitempty"`
 	Samples     []map[string]string `json:"-"`
 }
 
@@ -213,6 +215,9 @@ func cmdCheck(args []string) int {
 			}
 			if h.MaxDecisions > 0 {
 				cfg.MaxDecisions = h.MaxDecisions
+			}
+			if h.MaxThreads > 0 {
+				cfg.MaxThreads = h.MaxThreads
 			}
 			if h.SolverTimeout > 0 {
 				cfg.SolverTimeout = time.Duration(h.SolverTimeout) * time.Second
@@ -361,6 +366,32 @@ func cmdCheck(args []string) int {
 			} else {
 				hr.Twin = "NOT violated"
 				inconclusive("vacuity twin was not violated: the end of the harness is unreachable")
+			}
+		}
+		// second-solver cross-check of the encoding (thorough tier, at the quick bounds)
+		if tier == "thorough" && verdict == "HOLDS-WITHIN-BOUND" && os.Getenv("VERIF_NOCROSS") == "" {
+			for _, other := range []string{"cvc5", "z3-new"} {
+				cfg4 := mkcfg()
+				cfg4.SolverKind = other
+				cfg4.Params = map[string]int64{}
+				for k, v := range h.Quick {
+					cfg4.Params[k] = v
+				}
+				ref := mkcfg()
+				ref.Params = cfg4.Params
+				stO := Explore(ld, fn, cfg4)
+				if len(stO.SolverErrors) > 0 || stO.SolverUnknown > 0 {
+					hr.Cross = other + ": gave unknown/errors, not comparable"
+					continue
+				}
+				stR := Explore(ld, fn, ref)
+				if stO.Paths == stR.Paths && stO.Completed == stR.Completed && stO.Obligations == stR.Obligations && stO.Discharged == stR.Discharged && len(stO.Violations) == len(stR.Violations) {
+					hr.Cross = fmt.Sprintf("%s agrees with z3 4.8.12 at the quick bounds (%d paths, %d obligations)", other, stO.Paths, stO.Obligations)
+				} else {
+					hr.Cross = fmt.Sprintf("%s DISAGREES with z3 4.8.12: paths %d vs %d, obligations %d vs %d", other, stO.Paths, stR.Paths, stO.Obligations, stR.Obligations)
+					inconclusive("solver cross-check: " + hr.Cross)
+				}
+				break
 			}
 		}
 		hr.Verdict = verdict
